@@ -786,8 +786,9 @@ class ServerModel(Model):
     expanding = SERVER_EXPAND
 
     def __init__(self, case, root, user, flags=(), fs_glob=None):
-        super().__init__(case['files'], case['top'], root, '', {}, flags,
-                         fs_glob)
+        # asyncssh reads the process environment
+        super().__init__(case['files'], case['top'], root, '',
+                         dict(os.environ), flags, fs_glob)
         self.conn = case['conn']
         self.user = user
 
@@ -1278,7 +1279,13 @@ def escapes(template: str, path: str) -> bool:
         full = mod.normpath(path)
 
         if mod is ntpath:
-            if ntpath.splitdrive(full)[0] != ntpath.splitdrive(base)[0]:
+            def drive(p):
+                d = ntpath.splitdrive(p)[0]
+                # ntpath calls any "x:" prefix a drive; Windows only letters
+                return d if d[:1].isascii() and d[:1].isalpha() or \
+                    d.startswith('\\\\') else ''
+
+            if drive(full) != drive(base):
                 return True
 
         if base in ('.', ''):
